@@ -21,5 +21,6 @@ CHECK = {
     "stages": [
         {"name": "sched", "pkg": "./checks/c19/sched",
          "sync": ["logutil/slogutil/jsonhybrid.go", "syncutil/pool.go"], "gomaxprocs": 1},
+        {"name": "race", "pkg": "./checks/c19/race", "race": True},
     ],
 }
